@@ -303,7 +303,7 @@ func init() {
 						}
 					}
 				}
-				e.minCount("R1", 30)
+				e.minCount("R1", 20)
 			}},
 			{ID: "R2", Desc: "failure edge returns the configured error (emitted together with R1)", Run: func(e *Engine) {
 				for _, role := range clientRoles {
@@ -715,9 +715,32 @@ func isIndexLoopCond(v ssa.Value) bool {
 	if add, ok := x.(*ssa.BinOp); ok && add.Op == token.ADD {
 		x = add.X
 	}
-	if _, isPhi := x.(*ssa.Phi); !isPhi {
+	phi, isPhi := x.(*ssa.Phi)
+	if !isPhi {
 		return false
 	}
-	c, ok := b.Y.(*ssa.Call)
+	// an induction variable: starts at a constant, the other edges are itself + 1
+	for _, ed := range phi.Edges {
+		if _, isC := constInt(ed); isC {
+			continue
+		}
+		add, ok := ed.(*ssa.BinOp)
+		if !ok || add.Op != token.ADD || add.X != ssa.Value(phi) {
+			return false
+		}
+		if n, isC := constInt(add.Y); !isC || n != 1 {
+			return false
+		}
+	}
+	// bound: len(x), possibly converted to another integer type
+	y := b.Y
+	for {
+		if cv, ok := y.(*ssa.Convert); ok && isIntType(cv.Type()) && isIntType(cv.X.Type()) {
+			y = cv.X
+			continue
+		}
+		break
+	}
+	c, ok := y.(*ssa.Call)
 	return ok && staticCalleeName(c) == "builtin.len"
 }
